@@ -889,26 +889,62 @@ def m_seek2(ex, st, obj, args, kwargs, node):
     return common.m_seek(ex, st, obj, args, kwargs, node)
 
 
+_AES_SIGNAL_CACHE = {}
+SHAPE_NOTES = []          # why a model had to fall back to its weakest form in this process (-> refutations are not definite)
+
+
 def aes_signal(repo=None):
-    """(class name raised by _apply_decoder in its AES branch, dedicated?) -- read from the AST of the checked tree.
-    `dedicated`: a strict subclass of Bad7zFile that no other `raise` of sevenzip.py uses, so that it identifies encryption."""
+    """(class that _apply_decoder raises for an AES coder, dedicated?).  Found by EXECUTING the real _apply_decoder (helpers in
+    place) on a coder id with the AES prefix and collecting what its own `raise` statements raise -- not by matching the text
+    of its branches.  `dedicated`: a strict subclass of Bad7zFile with a single raise site in sevenzip.py, so that it
+    identifies encryption.  Unrecognised -> ("Bad7zFile", False), the weakest model, and a SHAPE_NOTES entry."""
+    key = repo or loader.REPO
+    if key in _AES_SIGNAL_CACHE:
+        return _AES_SIGNAL_CACHE[key]
+    _AES_SIGNAL_CACHE[key] = ("Bad7zFile", False)          # (re-entrancy: the executor below consults aes_signal in exc_any)
     try:
+        from pyvc.contracts import Registry
+        from pyvc.exctypes import Universe
+        from pyvc.state import Frame, State
         m = loader.module(SEVEN, repo)
         f = m.functions.get("SevenZipReader._apply_decoder")
-        name = None
-        for n in ast.walk(f):
-            if isinstance(n, ast.If) and "CODER_AES_PREFIX" in ast.unparse(n.test):
-                for r in n.body:
-                    if isinstance(r, ast.Raise) and isinstance(r.exc, ast.Call):
-                        name = dotted(r.exc.func)
-        if not name:
-            return "Bad7zFile", False
-        uses = [n for n in ast.walk(m.tree) if isinstance(n, ast.Raise) and isinstance(n.exc, ast.Call) and dotted(n.exc.func) == name]
+        reg = Registry()
+        install_container_models(reg)
+        install_archive_models(reg)
+        uni = Universe(key)
+        ex = C08Executor(m, reg, uni, abstract=True, inline_calls=False, inline_local=True)
+        st = State()
+        cid = VExt("CoderId")
+        env = {a.arg: VUnk(a.arg) for a in f.args.args}
+        names = [a.arg for a in f.args.args]
+        env[names[1] if len(names) > 1 else "coder_id"] = cid
+        st.frames = [Frame(env, None, f)]
+        st.assume(is_aes(cid.t))
+        ex.cur_fn_stack.append(f)
+        ex.sinks.append([])
+        try:
+            outs = ex.exec_block(f.body, st)
+        finally:
+            sink = ex.sinks.pop()
+            ex.cur_fn_stack.pop()
+        raised = [(o.st, o.val) for o in outs if o.kind == "raise"] + list(sink)
+        own_cls = set()
+        for (_s, e) in raised:
+            if "site" in e.attrs or "from_callee" in e.attrs:
+                continue
+            own_cls.add(uni.names[e.tidx.as_long()] if z3.is_int_value(e.tidx) else None)
+        returns = [o for o in outs if o.kind in ("return", "fall") and ex.feasible(o.st.pc)]
+        if len(own_cls) != 1 or None in own_cls or returns:
+            SHAPE_NOTES.append(f"aes_signal: _apply_decoder on an AES coder: own raises {sorted(map(str, own_cls))}, {len(returns)} normal path(s)")
+            return _AES_SIGNAL_CACHE[key]
+        name = own_cls.pop()
+        uses = [n for n in ast.walk(m.tree) if isinstance(n, ast.Raise) and n.exc is not None and dotted(n.exc.func if isinstance(n.exc, ast.Call) else n.exc) == name]
         cls = m.classes.get(name)
         strict = cls is not None and any(ast.unparse(b) == "Bad7zFile" for b in cls.bases)
-        return name, bool(strict and len(uses) == 1)
-    except Exception:  # noqa
-        return "Bad7zFile", False
+        _AES_SIGNAL_CACHE[key] = (name, bool(strict and len(uses) == 1))
+    except Exception as e:  # noqa  (a pack bug or an unexpected shape must not become an alarm)
+        SHAPE_NOTES.append(f"aes_signal: {type(e).__name__}: {e}")
+    return _AES_SIGNAL_CACHE[key]
 
 
 def _exc_any_unless_signal(ex, st, site, aes_cond):
@@ -1336,6 +1372,9 @@ def new_pdfreader(ex, st, args, kwargs, node):
 def m_pdf_decrypt(ex, st, obj, args, kwargs, node):
     """PdfReader.decrypt(pw): ASSUMED to raise anything or return 0 (password rejected) / 1 / 2."""
     pw = args[0].const() if args and isinstance(args[0], VStr) else None
+    h = getattr(ex.contract, "on_decrypt", None)
+    if h is not None:
+        h(ex, st, obj, node)
     bad = st.fork()
     bad.ghost["decrypt_raised"] = True
     bad.ghost["decrypt_called_on"] = Term(obj.t) if pw == "" else None
@@ -1426,7 +1465,7 @@ def aes_patch_contract(reg):
     t = f"{AESFB}::patch_pypdf_fallback_aes"
     return FnContract(
         target=t, params=[], raises=[],
-        result_maker=lambda ex, st, ctx: VBool(z3.Bool(fresh_name("patched"))),
+        result_maker=lambda ex, st, ctx: (st.ghost.__setitem__("aes_ensured", True), VBool(z3.Bool(fresh_name("patched"))))[1],
         ensures=[("true-iff-fallback-provider-and-then-every-importer-of-the-aes-names-is-rebound",
                   lambda c: post(c) if isinstance(c.result, VBool) and c.result.const() is not None else z3.BoolVal(True))],
         note="returns True exactly on pypdf's fallback provider, and then aes_{ecb,cbc}_{encrypt,decrypt} and CryptAES resolve to the "
@@ -1491,7 +1530,11 @@ def pdf_contracts(reg):
         ok = f is not None and obj.t.eq(READER_OF(f))
         ex.add_vc("dataflow", "pages-are-read-from-the-reader-that-passed-the-decrypt-check", st.pc,
                   z3.And(z3.BoolVal(ok), checked(ex, st, obj.t)) if ok else z3.BoolVal(False))
-    cp.on_yield, cp.on_pages = pdf_on_yield, pdf_on_pages
+    def pdf_on_decrypt(ex, st, obj, node):
+        # AES-128 files pass the constructor without AES: the built-in AES must have been installed on every path to decrypt()
+        ex.add_vc("typestate", "aes-provider-ensured-before-decrypt", st.pc, z3.BoolVal(bool(st.ghost.get("aes_ensured"))), loc=ex.loc(node),
+                  note=f"{ex.loc(node)} reader.decrypt reachable without patch_pypdf_fallback_aes() having been called")
+    cp.on_yield, cp.on_pages, cp.on_decrypt = pdf_on_yield, pdf_on_pages, pdf_on_decrypt
     EXECUTOR_KW[t] = {"abstract": True, "inline_calls": False, "inline_local": True, "merge_after_check": True}
     out.append(cp)
     return out
@@ -1682,22 +1725,6 @@ def policy(repo, tier):
         missing.append("SevenZipFile.__enter__ -> SevenZipReader()")
     obls.append(ground_obligation("C08/sevenzip.py::SevenZipReader/policy#encoded-header-is-decoded-through-_apply_decoder", not missing,
                                   "; ".join(missing) or "call chain present", SEVEN, definite=False))
-    # P4: PDF: the AES provider is ensured before an encrypted reader is decrypted / read (else an empty-password AES-128 PDF
-    #     fails with DependencyError instead of extracting like its unencrypted original)
-    m = loader.module(PDF, repo)
-    f = m.functions.get("read_pdf")
-    ok, why = False, "read_pdf missing"
-    if f is not None:
-        mf = MustFacts(gen=lambda call: ["aes-provider-ensured"] if dotted(call.func).split(".")[-1] == "patch_pypdf_fallback_aes" else [],
-                       need=lambda n: [("aes-provider-ensured", f"line {n.lineno}")] if isinstance(n, ast.Call) and isinstance(n.func, ast.Attribute)
-                       and n.func.attr == "decrypt" else [])
-        res = mf.run(f)
-        ok = bool(res) and all(r.ok for r in res)
-        why = "; ".join(f"reader.decrypt at {r.desc}: the built-in AES is installed only if PdfReader() itself raised DependencyError" for r in res if not r.ok) \
-            or f"{len(res)} decrypt site(s) dominated"
-        fns.append(dict(m.fn_info("read_pdf"), obligations=1))
-    obls.append(ground_obligation("C08/pdf_extractor.py::read_pdf/policy#aes-provider-ensured-before-decrypt", ok, why, PDF,
-                                  definite=bool(f is not None)))
     # P5: entry point "attachments of an e-mail": the file-encrypted error of an attachment's extractor is passed on, not
     #     swallowed by the per-attachment `except Exception` (handler order on the real AST)
     DT = X + "data_types.py"
